@@ -2198,9 +2198,12 @@ func (s *Store) Join(jr *proto.JoinRequest) error {
 		// If a node already exists with either the joining node's ID or address,
 		// that node may need to be removed from the config first.
 		if srv.ID == raft.ServerID(id) || srv.Address == raft.ServerAddress(addr) {
-			// However, if *both* the ID and the address are the same, then no
-			// join is actually needed.
-			if srv.Address == raft.ServerAddress(addr) && srv.ID == raft.ServerID(id) {
+			// However, if *both* the ID and the address are the same, and the node
+			// already has the suffrage it is asking for, then no join is actually
+			// needed. A node asking for a different suffrage must be removed and
+			// added again, or its request would be acknowledged but ignored.
+			if srv.Address == raft.ServerAddress(addr) && srv.ID == raft.ServerID(id) &&
+				(srv.Suffrage == raft.Voter) == voter {
 				stats.Add(numIgnoredJoins, 1)
 				s.numIgnoredJoins++
 				s.logger.Printf("node %s at %s already member of cluster, ignoring join request", id, addr)
